@@ -1720,3 +1720,52 @@ Proof.
   - apply finished_by_b. vm_compute. reflexivity.
   - vm_compute. reflexivity.
 Qed.
+
+(* ---------------------------------------------------------------------- every run in which some
+   computation calls finished() has a FIRST such step, and finish_safe applies to it *)
+Section AnyRun.
+  Variable cs : list constr.
+  Variable ncs : node -> list nat.
+  Variable dom : node -> list Z.
+  Variable infinity maxd : Z.
+  Variable orc0 : node -> list Z.
+  Notation P := (dba_proto cs ncs dom infinity maxd orc0).
+
+  Lemma finished_b_true evs : existsb is_finished evs = true -> exists n, In (EvFinished n) evs.
+  Proof.
+    intros H. apply existsb_exists in H as [e [Hin He]]. destruct e; try discriminate. eauto.
+  Qed.
+
+  Lemma first_finish_split sched : forall cf n, In (EvFinished n) (snd (exec P cf sched)) ->
+    exists pre a rest n1, sched = pre ++ a :: rest
+      /\ (forall m, ~ In (EvFinished m) (snd (exec P cf pre)))
+      /\ In (EvFinished n1) (snd (step P (fst (exec P cf pre)) a)).
+  Proof.
+    induction sched as [|a r IH]; intros cf n Hin; [destruct Hin|].
+    simpl in Hin. destruct (step P cf a) as [cf1 e1] eqn:E1.
+    destruct (exec P cf1 r) as [cf2 e2] eqn:E2. simpl in Hin.
+    destruct (existsb is_finished e1) eqn:B.
+    - apply finished_b_true in B as [n1 Hn1].
+      exists [], a, r, n1. simpl. rewrite E1. simpl. split; auto.
+    - pose proof (no_finished_b e1 B) as Hno1.
+      apply in_app_or in Hin as [Hin|Hin]; [exfalso; now apply (Hno1 n)|].
+      destruct (IH cf1 n) as [pre [a' [rest [n1 [Es [Hno Hf]]]]]]; [rewrite E2; exact Hin|].
+      exists (a :: pre), a', rest, n1. split; [simpl; now rewrite Es|].
+      simpl. rewrite E1. destruct (exec P cf1 pre) as [cf3 e3]. simpl in *. split; auto.
+      intros m Hm. apply in_app_or in Hm as [Hm|Hm]; [now apply (Hno1 m) | now apply (Hno m)].
+  Qed.
+
+  Theorem finish_safe_any_run sched n :
+    wf_problem cs ncs -> 0 < infinity ->
+    In (EvFinished n) (snd (run P sched)) ->
+    exists pre a rest n1, sched = pre ++ a :: rest
+      /\ (forall m, ~ In (EvFinished m) (snd (run P pre)))
+      /\ In (EvFinished n1) (snd (step P (fst (run P pre)) a))
+      /\ ((forall x, occurs cs x -> within cs ncs (Z.to_nat maxd) n1 x) ->
+          satisfying cs infinity (held (fst (step P (fst (run P pre)) a)))).
+  Proof.
+    intros Hwf Hinf Hin. destruct (first_finish_split sched (init P) n Hin) as [pre [a [rest [n1 [Es [Hno Hf]]]]]].
+    exists pre, a, rest, n1. repeat split; auto.
+    intros Hconn. now apply (finish_safe cs ncs dom infinity maxd orc0 Hwf Hinf pre a n1).
+  Qed.
+End AnyRun.
